@@ -327,3 +327,36 @@ def rule_OP4(ctx, rep):
                 rep.ok('OP4', fnrec, calls[0], f'{m.name}(a, b) -> {prim}(a, b) in the same order')
             elif calls:
                 rep.bad('OP4', fnrec, calls[0], f'{m.name}{tuple(ps)} hands its operands to {prim} as {[norm(a) for a in calls[0].args[:2]]}')
+
+
+# ---------------------------------------------------------------------------------- OP5
+def rule_OP5(ctx, rep):
+    """exponentiation siblings: every __pow__/__ipow__ of the field element / array classes hands the exponent it
+    was given, unmodified, to the powering primitive (no pre-reduction of the exponent, which is valid only for
+    nonzero bases), and restricts it to integers in the same way."""
+    model = ctx.model
+    n = 0
+    for ck, cnode in sorted(model.classes.items()):
+        if not ck.startswith('finfields::'):
+            continue
+        for m in cnode.body:
+            if not (isinstance(m, ast.FunctionDef) and m.name in ('__pow__', '__ipow__')) or _trivial(m):
+                continue
+            fnrec = model.by_node.get(id(m))
+            expn = m.args.args[1].arg
+            prim = [c for c in iter_nodes(m) if isinstance(c, ast.Call) and attr_tail(c.func) in ('powmod', '_pow', '_powmod')]
+            if not prim:
+                continue
+            n += 1
+            rebinds = [s for s in iter_nodes(m) if isinstance(s, (ast.Assign, ast.AugAssign, ast.NamedExpr)) and
+                       any(isinstance(t, ast.Name) and t.id == expn for t in (s.targets if isinstance(s, ast.Assign) else [s.target]))]
+            passed = any(isinstance(a, ast.Name) and a.id == expn for a in prim[0].args)
+            if rebinds:
+                rep.bad('OP5', fnrec, rebinds[0], f'{m.name} modifies the exponent ({norm(rebinds[0])}) before powering: a reduction modulo the group order is valid only for '
+                        'nonzero bases (0**(q-1) must be 0, 0**-1 must raise), and sibling implementations pass the exponent unchanged')
+            elif not passed:
+                rep.bad('OP5', fnrec, prim[0], f'{m.name} does not hand the given exponent to the powering primitive')
+            else:
+                rep.ok('OP5', fnrec, prim[0], 'exponent passed unchanged to the powering primitive')
+    if n < 4:
+        raise AnalysisError(f'OP5: only {n} exponentiation operators found (expected >= 4)')
